@@ -1,6 +1,7 @@
 import OpusProofs.ResetState
 import OpusProofs.ResetDecode
 import OpusProofs.ResetMs
+import OpusProofs.ResetSettings
 /-
   OpusProps.C12 — codec state is deterministic, freely copyable and reset-equivalent
   (DESIGN.md §7.C12).  Model: OpusModel.ResetState (init / OPUS_RESET_STATE / settings transcribed
@@ -45,6 +46,24 @@ example : run ⟨fun _ _ => .lowBudget, fun v _ => ⟨.used 1, 0, v.voiceRatio, 
               ⟨fun v r => if r = 4011 then v.complexity else v.rangeFinal⟩
               (encInit 8000 1 2048 0 18152 38416) [.set 4010 3, .get 4011, .encode ⟨160, 2, 16, 0, 0⟩, .reset, .get 4011]
           = [(0, 0), (3, 0), (-1, 0), (0, 0), (3, 0)] := by decide
+
+/-- "A newly created one carrying the same settings", read as calls: for every state reachable from a VALID
+    `opus_encoder_init` (1 or 2 channels, a defined application), a new encoder initialised with ANY valid
+    application and then given the requests `settingsRequests (settingsOf s)` — OPUS_SET_APPLICATION,
+    OPUS_SET_BITRATE, … one OPUS_SET_* per setting — accepts every one of them, and the reset object is
+    indistinguishable from the result (so `encFresh`'s "init, then store the setting members" and
+    "init, then issue the requests" are the same object as far as any later call can tell; they differ only in
+    `silk_mode.useCBR` / `maxInternalSampleRate`, which every encode assigns before use). -/
+theorem reset_eq_init_by_requests (s : Enc) (h : ReachOk s) (app0 : Int) (ha : app0 = 2048 ∨ app0 = 2049 ∨ app0 = 2051) :
+    ∃ f, replay (encInit s.fs s.channels app0 s.arch s.silkEncOffset s.celtEncOffset) (settingsRequests (settingsOf s)) = some f ∧
+         ObsEq (encReset s) f := by
+  obtain ⟨f, hf, hv⟩ := replay_requests s.fs s.channels app0 s.arch s.silkEncOffset s.celtEncOffset (settingsOf s) ha (reachOk_good h).2
+  exact ⟨f, hf, (reset_eq_init s (reachOk_reach h)).trans hv.symm⟩
+
+example : ReachOk (encodeStep ⟨fun _ _ => .lowBudget, fun v _ => ⟨.used 1, 0, v.voiceRatio, 0, .used 1, 0⟩,
+      fun _ _ _ => ⟨1, 1, 1, 1, 1, 1, 1, 1, false, .fresh, silkCtlInit 8000 1, .fresh, celtCfgInit 8000 1 0,
+                    1, 1, 1, .fresh, .fresh, 1, 1, 1, 1, 1, 1, 1⟩, fun _ _ => ⟨3, 0⟩⟩
+    (encInit 8000 1 2048 0 18152 38416) ⟨160, 2, 16, 0, 0⟩).1 := .encode _ _ (.init _ _ _ _ _ _ ⟨Or.inl rfl, Or.inl rfl⟩)
 
 /-- Documented counterexample about the OLD reset (the tree before fix 14e3a558, where
     `silk_mode.LBRR_coded`, `voice_ratio`, … survived OPUS_RESET_STATE; `encResetUnrepaired` is kept in the
@@ -93,13 +112,32 @@ example : runDec ⟨fun _ _ => .packet, fun _ _ => ⟨1, 1103, 1000, 1000, 320, 
     (decInit 16000 1 4 96 8712) [.decode ⟨3, 5760, 0, 1⟩, .get 4033, .reset, .get 4033]
   = [(320, 5), (228, 0), (0, 0), (0, 0)] := by decide
 
+/-- The decode-call footprint is tied to the code through `decStepCheck` (suite `misc decstep`: members before
+    and after each real decode call).  The checker is not stricter than the model: whatever the oracles answer,
+    the state `decodeStep` produces is accepted — so a rejected real call is something the model cannot do
+    (a constant member written; concealment that does not keep `prev_mode` / DecControl as claimed; a packet that
+    changes DecControl.nChannelsInternal / internalSampleRate without leaving `prev_mode` SILK-only or hybrid). -/
+theorem decode_footprint_check_sound (O : DOracles) (s : Dec) (x : DInp) (dataNull : Bool)
+    (hn : dataNull = true → O.path (decView s) x ≠ .packet) :
+    decStepCheck s (decodeStep O s x).1 dataNull = "ok" :=
+  decStepCheck_model O s x dataNull hn
+
+example : decStepCheck (decInit 16000 1 4 96 8712) { (decInit 16000 1 4 96 8712) with prevMode := 1002, dcInternalSampleRate := 8000 } false
+    = "packet-claim-violated" := by decide
+
 /-- Same clause for the multistream encoder (and the projection encoder, whose ctl forwards the request),
     state form: OPUS_RESET_STATE — clear the surround memories, then the per-stream reset through the
     fan-out loop — returns OPUS_OK and leaves an object whose own members and memories equal, and whose
     stream encoders are pairwise indistinguishable from, those of a new multistream encoder whose streams
     carry the same settings; hence every stream answers every later per-stream call sequence identically.
     (What opus_multistream_encode_native computes from the multistream-level members is not modelled: the
-    multistream encode call is searched by the twin harness.) -/
+    multistream encode call is searched by the twin harness.)
+    NON-TRIVIAL CONTENT: `msEncFresh m` keeps `m`'s layout and multistream-level settings by definition, so ten
+    of the conjuncts of `MsObsEq` read `m.x = m.x` (the reset does not write those members — that is tied to
+    the code by the `misc msreset` correspondence, not proved here).  What the theorem adds is (i) the fan-out
+    returns OPUS_OK and visits every stream, (ii) the surround memories are as after creation (cleared in the
+    SURROUND mapping, never written in the others: `MsInv.mems`), (iii) every stream encoder is `ObsEq` to a
+    new one with its settings and therefore answers every later per-stream call sequence identically. -/
 theorem ms_reset_eq_init (m : MsEnc) (h : MsInv m) (O : Oracles) (G : GetOracle) (ops : List Op) :
     MsObsEq (msEncReset m).1 (msEncFresh m) ∧ (msEncReset m).2 = Ctl.Ret.ok ∧
     (msEncReset m).1.streams.map (fun e => run O G e ops) = (msEncFresh m).streams.map (fun e => run O G e ops) :=
@@ -113,7 +151,9 @@ example : MsInv { nbChannels := 3, nbStreams := 2, nbCoupled := 1, mapping := [0
       rcases he with rfl | rfl <;> exact .init .., fun hs => absurd rfl hs⟩
 
 /-- Same for the multistream / projection decoder: the fan-out of the per-stream reset leaves stream decoders
-    pairwise indistinguishable from new ones with the same settings, for every later per-stream call sequence. -/
+    pairwise indistinguishable from new ones with the same settings, for every later per-stream call sequence.
+    NON-TRIVIAL CONTENT: the four layout conjuncts are `m.x = m.x` by definition of `msDecFresh` (tied to the code by
+    `misc msdecreset`); the content is the fan-out (OPUS_OK, every stream visited) and the per-stream `DecObsEq`. -/
 theorem ms_dec_reset_eq_init (m : MsDec) (h : ∀ d ∈ m.streams, DReach d) (O : DOracles) (ops : List DOp) :
     MsDecObsEq (msDecReset m).1 (msDecFresh m) ∧ (msDecReset m).2 = Ctl.Ret.ok ∧
     (msDecReset m).1.streams.map (fun d => runDec O d ops) = (msDecFresh m).streams.map (fun d => runDec O d ops) :=
